@@ -66,6 +66,8 @@ def in_box(box, p):
 def check_tree(sim, box, where, res, spec, grav=False, want_dump=False):
     """dump the tree + particle positions and run the checker / the model comparison."""
     forest = L.dump_tree(sim)
+    if forest is None and sim.N == 0:
+        return None, []          # no particle, no tree (e.g. restored after every particle left an open box): nothing to account for
     if forest is None:
         raise Fail("tree:missing", "tree_root is NULL although the tree is in use (%s)" % where)
     part = [(p.x, p.y, p.z, p.m) for p in (sim.particles[i] for i in range(sim.N))]
